@@ -108,3 +108,20 @@ def run_for(chk, prog, pid, analyses):
         if pid in props:
             chk.note(s)
     return n, obs
+
+
+def dispatch_roles(obs, props, cls_name, res, fields, where, trace_name="trace"):
+    """every arm of an `edit` dispatcher forwards (key, trace, <the request's own field(s)>, argdiffs) to its helper, each in its role"""
+    from ..rules import is_mcall
+    from ..terms import P, is_t, show
+
+    for conds, t in res.returns:
+        kind = [c[2] for c, pol in conds if pol and is_t(c, "isinst") and c[1] == P("edit_request")]
+        if not kind or kind[0] not in fields:
+            continue
+        want_fields = [("attr", P("edit_request"), f) for f in fields[kind[0]]]
+        ok = is_t(t, "call") and len(t[2]) >= 4 and t[2][0] == P("key") and t[2][1] == P(trace_name) and t[2][-1] == P("argdiffs") and all(wf in t[2] for wf in want_fields)
+        if ok:
+            pos = [t[2].index(wf) for wf in want_fields]
+            ok = pos == sorted(pos)
+        obs.add(props, "DELEG-ROLE", f"{cls_name}.edit/{kind[0]}", ok, derived=show(t)[:220], expected=f"helper(key, {trace_name}, {', '.join('request.' + f for f in fields[kind[0]])}, ..., argdiffs)", where=where)
